@@ -34,6 +34,9 @@ Sim *make_shared_sim();
 extern std::string g_focus;
 // true when the linked archive is a FIPS_MODE build
 extern bool g_fips_build;
+// when set, workloads call family symbols only and never touch dispatch slots (tasks interleaved by SharedStateSim)
+extern bool g_force_family_api;
+Sim *get_sim_by_name(const std::string &n);
 
 // symbol lookup in the linked library (harness is linked with -rdynamic; dlsym(RTLD_DEFAULT))
 void *libsym(const char *name, bool required = true);
